@@ -54,17 +54,27 @@ var vhC01Main = []vhC01Tpl{
 	// relative names inside macro bodies, in two directories
 	{"dirA/m", "{% macro m() %}{% include './p' %}{% endmacro %}{{ _self.m() }}{% include './p' %}"},
 	{"dirB/m", "{% macro m() %}{% include './p' %}{% endmacro %}{{ _self.m() }}{% include './p' %}"},
+	// undefined names and failing operands of default: with strict variables these are errors, and what
+	// they are must not depend on what failed before
+	{"undefined", "a{{ undefinedvar }}b{{ u.attr }}c"},
+	{"default-ok", "{{ undefinedvar|default('d') }}{{ x|default('e') }}"},
+	{"default-fail", "{{ xs[7]|default('none') }}"},
+	{"default-fail2", "{{ (n / 0)|default('none') }}{{ undefinedvar }}"},
 	{"empty-branches", "{% if x %}{% else %}E{% endif %}{% for i in xs %}{% endfor %}{% if not x %}{% elseif y %}{% else %}F{% endif %}"},
 }
 
 // templates used as "what was rendered before" in histories: one per pooled-object family
-var vhC01Others = []string{"for", "include", "extends2", "import", "macro", "apply", "nested", "fail-func", "sandboxed-include", "dirB/m"}
+var vhC01Others = []string{"default-fail", "default-fail2", "undefined", "for", "include", "extends2", "import", "macro", "apply", "nested", "fail-func", "sandboxed-include", "dirB/m"}
 
 var vhErrBoom = errors.New("BOOM")
 
 // vhC01Engine: an engine holding the library templates and the named main templates.
+// strict-variables mode of every engine of the current run (set by the entry points)
+var vhC01Strict bool
+
 func vhC01Engine(mains ...string) *Engine {
 	e := New()
+	e.SetStrictVars(vhC01Strict)
 	e.EnableSandbox(NewDefaultSecurityPolicy())
 	e.AddFilter("boom", func(v interface{}, a ...interface{}) (interface{}, error) { return nil, vhErrBoom })
 	e.AddFunction("boomfn", func(a ...interface{}) (interface{}, error) { return nil, vhErrBoom })
@@ -114,6 +124,7 @@ func vhRender(e *Engine, name string, ctx map[string]interface{}) vhResult {
 
 // VH_C01_Repeat: three renders on one engine and one on a fresh engine give the same result.
 func VH_C01_Repeat() {
+	vhC01Strict = symBool()
 	k := symParam("K", -1)
 	if k < 0 {
 		k = symChoice(len(vhC01Main))
@@ -140,6 +151,7 @@ func VH_C01_Repeat() {
 // registration and parsing of new templates, activity on another engine, cache toggles) precedes the
 // render under test; the result equals that of a fresh engine.
 func VH_C01_History() {
+	vhC01Strict = symBool()
 	h := symParam("H", 2)
 	k := symChoice(len(vhC01Main))
 	name := vhC01Main[k].name
